@@ -208,9 +208,12 @@ func runSelftest(repo, verif, id string) *selftestResult {
 			text := string(b)
 			switch m.Kind {
 			case "equiv":
-				if code == 0 {
+				switch code {
+				case 0:
 					outs[i] = outcome{m, "silent", ""}
-				} else {
+				case 2:
+					outs[i] = outcome{m, "skipped", "variant does not type-check: " + lastLine(text)}
+				default:
 					outs[i] = outcome{m, "noisy", firstViolation(text)}
 				}
 			default:
